@@ -1,5 +1,6 @@
 import RgVerif.Lemmas.SearcherC01
 import RgVerif.Props.C01Regex
+import RgVerif.Lemmas.SearcherC01Bridge
 /-
 C01 — a line is reported iff the pattern matches that line: **searcher-level half** (line-by-line search of
 `core.rs` / `lines.rs`: slow path, fast path, inverted fast path).  The matcher is an arbitrary `MatcherI`;
@@ -89,25 +90,6 @@ theorem C01_content_fast (cfg : Config) (m : MatcherI) (inp : Bytes) (hbin : cfg
 The matcher-level half (module `Props/C01Regex.lean`, C11) speaks about `Rx.MatcherM` (the compiled HIR, the
 fast-line literals) and an engine `shortest` satisfying `EngineSpec`.  `bridge` presents that matcher to the
 searcher model; the theorems below compose the two halves. -/
-
-/-- `Rx.LineTerm` as the searcher's `LineTerm` -/
-def convLT : Rx.LineTerm → Lines.LineTerm
-  | .byte b => .byte b
-  | .crlf => .crlf
-
-def convCand : Rx.Cand → LineMatchKind
-  | .candidate i => .candidate i
-  | .confirmed i => .confirmed i
-
-/-- The `grep_matcher::Matcher` the searcher is handed: `shortest_match` is the engine on the compiled
-expression, `find_candidate_line` / `line_terminator` / `non_matching_bytes` are the built matcher's
-(`find_at` is only used by multi-line search and plays no role here). -/
-def bridge (m : Rx.MatcherM) (shortest : Bytes → Option Nat) : MatcherI :=
-  { findAt := fun _ _ => none
-  , shortestAt := fun h at_ => if at_ = 0 then shortest h else none
-  , findCandidateLine := fun h => (m.findCandidateLine shortest h).map convCand
-  , lineTerminator := m.lineTerm.map convLT
-  , nonMatchingBytes := some fun b => m.nonMatching.contains b }
 
 open Classical in
 /-- **the property's selection**: the user's expression (patterns joined; `-F`, `-w`, `-x`, case options
@@ -235,6 +217,39 @@ theorem contentClean_byte (rcfg : Rx.Config) (cfg : Config) (inp : Bytes) (b : N
   have := content_no_term cfg.lineTerm inp l hl
   rw [h2] at this ⊢
   exact this
+
+/-- **C01, fast path, end to end with an expression-level guard** (LF terminator): if every look-around of the
+compiled expression is an LF line anchor or an ASCII word assertion (`allLooks safeLookLF`, decidable on the
+HIR) and the prefilter literals are non-empty and terminator-free, the built matcher is line safe on EVERY
+input (`lineSafe_of_contract` + `bridge_contract`: clauses (a), (b), (c) of the matcher-level half and the
+leftmost-engine contract), so the fast path reports exactly the lines whose content the user's expression
+matches. Outside the guard clause (b) fails (F1, F2, F24). -/
+theorem C01_fast_safe_looks (isWord : Nat → Bool) (rcfg : Rx.Config) (pats : List Bytes) (translated : Rx.Hir)
+    (accelerated : Bool) (optimize : Rx.Seq → Rx.Seq) (norm : Rx.Hir → Rx.Hir) (shortest : Bytes → Option Nat)
+    (m : Rx.MatcherM) (hb : rcfg.build pats translated accelerated optimize norm = .ok m)
+    (hnorm : ∀ h hay s e, Rx.Matches (Rx.lookAt isWord) (norm h) hay s e ↔ Rx.Matches (Rx.lookAt isWord) h hay s e)
+    (hopt : C11.OptimizeCert optimize m.hir ((rcfg.lineTerm.map Rx.LineTerm.bytes).getD []))
+    (heng : C11.EngineSpec (Rx.lookAt isWord) m.hir shortest)
+    (hterm : rcfg.lineTerm = some (.byte 10))
+    (hsafe : Rx.allLooks Rx.safeLookLF m.hir = true)
+    (hlits : ∀ L, m.fastLits = some L → ∀ l ∈ L, l.bytes ≠ [] ∧ 10 ∉ l.bytes)
+    (cfg : Config) (inp : Bytes) (hlt : cfg.lineTerm = .byte 10) (hbin : cfg.binary = .none)
+    (hs : cfg.stopOnNonmatch = false)
+    (hfast : isLineByLineFast cfg (bridge m shortest) (Core.new cfg true) = true) :
+    reported (sliceByLine cfg (bridge m shortest) allCont inp).events =
+      selectedLines cfg.lineTerm.asByte
+        (userSel (Rx.lookAt isWord) rcfg pats translated cfg.lineTerm cfg.invertMatch) inp := by
+  have hasb : cfg.lineTerm.asByte = 10 := by rw [hlt]; rfl
+  have L : Layout 10 inp (linesOf cfg (bridge m shortest) inp) := by
+    have := layout_splitLines cfg.lineTerm.asByte inp (lineSel cfg (bridge m shortest))
+    unfold linesOf
+    rw [hasb] at this ⊢; exact this
+  have hc := bridge_contract isWord rcfg pats translated accelerated optimize norm shortest m hb hnorm hopt heng hterm
+    hsafe hlits
+  have hls : LineSafe cfg (bridge m shortest) inp (linesOf cfg (bridge m shortest) inp) :=
+    lineSafe_of_contract L (linesOf_length cfg (bridge m shortest) inp) hlt hc
+  exact C01_fast_end_to_end (Rx.lookAt isWord) rcfg pats translated accelerated optimize norm shortest m hb hnorm heng
+    cfg inp hbin hs hfast hls (contentClean_byte rcfg cfg inp 10 hterm hlt)
 
 /-! ### the matcher-level half, re-exported (proved in `Props/C01Regex.lean`) -/
 
